@@ -2058,9 +2058,16 @@ void compress_function_tables () {
           cftp->index[i] = (unsigned char)j++;
           if (j == 256)
             {
-              /* Woops.  Fix things up a bit */
+              /* Woops.  More than 255 entries need a slot of their own: the
+               * index table ends here and everything from this entry on is
+               * kept in full, like the functions defined at this level.
+               * find_func_entry() takes the length of the index table from
+               * first_defined - num_compressed, which must come out as i
+               * (so num_compressed is f_ov, not i), and the uncompressed
+               * tail now starts at the new f_def. */
               cftp->first_defined = (function_index_t)(f_def = f_ov + i);
-              cftp->num_compressed = (unsigned short)i;
+              cftp->num_compressed = (unsigned short)f_ov;
+              n_def = n_tot - f_def;
               for (j = i; j < n_ov; j++)
                 cftp->index[j] = 255;
               j = 255;
